@@ -385,6 +385,41 @@ struct EnvEngine : Engine {
 			p.par["nenv"] = std::to_string(nenv);
 			for (int i = 0; i < nenv; i++)
 				put_env(p, "e" + std::to_string(i) + "_", gen_env(r, i < 3 ? i + 1 : 4));
+		} else if (k < 64) {
+			/* ---- input that does consult the clock: whatever it reads there, the tool has to come back ---- */
+			p.par["kind"] = "clockuse";
+			unsigned c = (unsigned)r.below(6);
+			char v[40];
+			int m = (int)r.range(1, 12), d = (int)r.range(1, 28);
+			switch (c) {
+			case 0:
+				snprintf(v, sizeof(v), "%02d %s", d, english().amo[m - 1].c_str());
+				p.argv = {"dconv", "-i", "%d %b", "-f", "%F", v};
+				break;
+			case 1:
+				p.argv = {"dconv", "--zone", "Europe/Berlin", "-f", "%T%Z", rtime(r)};
+				break;
+			case 2:
+				snprintf(v, sizeof(v), "%02d/%02d/%02d", d, m, (int)r.below(100));
+				p.argv = {"dconv", "-i", "%d/%m/%y", "-f", "%F", v};
+				break;
+			case 3:
+				p.argv = {"dadd", rtime(r), "+90m", "--zone", "America/New_York"};
+				break;
+			case 4:
+				p.argv = {"dround", rtime(r), "1h"};
+				p.argv.insert(p.argv.begin() + 1, {"--from-zone", "Asia/Tokyo"});
+				break;
+			default:
+				p.argv = {"dgrep", "-i", "%b %d", std::string("<") + english().amo[m - 1] + " 15"};
+				p.has_input = true;
+				p.input = "Jan 01\nJul 04\nDec 31\n";
+				break;
+			}
+			int nenv = 3;
+			p.par["nenv"] = std::to_string(nenv);
+			for (int i = 0; i < nenv; i++)
+				put_env(p, "e" + std::to_string(i) + "_", gen_env(r, i == 2 ? 4 : 1));
 		} else if (k < 70) {
 			/* ---- each locale option affects its own direction only ---- */
 			p.par["kind"] = "direction";
@@ -584,7 +619,8 @@ struct EnvEngine : Engine {
 			for (auto &e : es)
 				sig = hash_str(hash_mix(sig, (uint64_t)(e.clock.start / 86400 / 365)), e.label);
 			st.signatures.insert(sig);
-			st.named[control ? "negative_controls" : p.par.count("with_base") ? "invocations_with_base" : "invocations_fully_specified"]++;
+			if (!(p.par.count("kind") && p.par.at("kind") == "clockuse"))
+				st.named[control ? "negative_controls" : p.par.count("with_base") ? "invocations_with_base" : "invocations_fully_specified"]++;
 			st.named["environments"] += es.size();
 			for (auto &r : rs) {
 				st.named["fault_fired_clock_failure"] += r.probes[P_CLOCK_FAIL];
@@ -604,6 +640,11 @@ struct EnvEngine : Engine {
 				v.detail = argv_str(p.argv) + " under {" + env_str(es[i]) + "}: " + rs[i].status_str() + " " + rs[i].note + " " + asan_summary(rs[i].err);
 				return v;
 			}
+		}
+		if (p.par.count("kind") && p.par.at("kind") == "clockuse") {
+			if (collect)
+				st.named["clock_consulting_invocations"]++;
+			return v;	/* termination and memory safety only: the value legitimately follows the clock */
 		}
 		if (control) {
 			if (rs.size() == 2 && rs[0].out == rs[1].out) {
